@@ -26,7 +26,7 @@ CHECKS = {
    "Every stream of length <= 3 (thorough 4) over {1, 2, error} in three renderings x counts around 0 and the stream length plus 2^63, 2^70 and big-integer representations x 31 stream laws; reduce/foreach against the nested-pipe expansion generated for each concrete stream and seven (init, update, projection) triples; 21 generator laws over all argument triples (numbers, strings, arrays, null); every combinator also runs on the reference evaluator.",
    "trusted: each law is the manual's defining expansion evaluated by the same binary; error position and payload are captured as data", "DESIGN.md §2 C11"),
  "C03": (MC, "vmc", "event-trace conformance: exhaustive streams x renderings x prefix consumers x iterator drop points against the reference evaluator",
-   "Every stream of length <= 3 (thorough 4) over {value, false, error, halt, input consumption, bomb, nothing}, each item behind a numbered effect marker, in four renderings (comma list, .[] over input, foreach source, filter argument) under 35 prefix consumers, with the library iterator pulled item by item and dropped after k items for every k; 24 infinite or effectful generators under 10 bounded consumers. The complete interleaved event trace (markers, input pulls, outputs, terminal event) must equal the reference evaluator's: nothing ordered after output k may run before it is delivered, nothing may be skipped. Divergence is caught by a watchdog.",
+   "Every stream of length <= 3 (thorough 4) over {value, false, error, halt, input consumption, bomb, nothing}, each item behind a numbered effect marker, in four renderings (comma list, .[] over input, foreach source, filter argument) and, up to length 2 (thorough 3), in 25 further embeddings (fold update and projection, try, label, binders, definitions, recurse step, path mode incl. both sides of //) under 35 prefix consumers, with the library iterator pulled item by item and dropped after k items for every k; 24 infinite or effectful generators under 10 bounded consumers. The complete interleaved event trace (markers, input pulls, outputs, terminal event) must equal the reference evaluator's: nothing ordered after output k may run before it is delivered, nothing may be skipped. Divergence is caught by a watchdog.",
    "trusted: reference evaluator; what runs before the first pull is attributed to output 1; fold-source effects vs init are unordered (manual) and excluded", "DESIGN.md §2 C03"),
  "C12": (EX, "vmc", "exhaustive small inputs x in-language laws (manual's equations and verify blocks)",
    "All arrays of length <= 3 (thorough 4) over 9 atoms (duplicates, ties, mixed types), all small objects with arbitrary keys in every insertion order, arrays of arrays, all strings of length <= 3/4 over {a, b, comma, space}; 10 key-filter laws x 11 key filters, 36 array laws, 18 object laws, 9 array-of-array laws, 18 string laws, each evaluated on every input.",
@@ -40,6 +40,9 @@ CHECKS = {
  "C14": (MC, "vmc+py", "exhaustive placement of reserved string atoms in small trees x in-language identities; independent readers (PyYAML, tomllib, csv, minidom)",
    "98 string atoms (reserved words, indicators, number-like spellings of YAML) at every position of a depth-2 tree (root, element, nested, value, key, adjacent pairs) plus one scalar of every kind and non-string keys: to<F>|from<F> is the identity on the documented domain and an error outside it for YAML, CBOR, TOML; all rows of <= 2 (thorough 3) fields over 33 field atoms for CSV/TSV; every XML token string of <= 4 (thorough 5) tokens accepted by the reader satisfies fromxml|toxml|fromxml == fromxml; what jaq writes is read back by independent readers with the same data; --to F | --from F on the command line agrees with the filters.",
    "trusted: PyYAML BaseLoader (YAML 1.1: scalars starting with ':'/'?' and NEL/LS/PS are excluded from that reader only), tomllib, csv, minidom; documented exceptions of docs/formats.dj", "DESIGN.md §2 C14"),
+ "C05": (EX, "vmc", "exhaustive sweep of argument tuples, token strings and byte strings; every case under catch_unwind in supervised child processes with overflow checks and debug assertions",
+   "Every native filter and definition discovered from the current tree, in value, path() and update position, x every tuple of input and arguments over a pool of ~50 (thorough ~100) boundary values (exhaustive for arity <= 1, thorough <= 2; 8 spread values for further positions); every string of <= 3 (thorough 4) tokens over 71 lexer-relevant tokens as filter text: lexed, parsed, loaded, compiled, every diagnostic rendered plain and coloured with every span checked to lie inside the text on character boundaries, accepted programs run; every string of <= 3..4 tokens over structural alphabets through the JSON, YAML, TOML, XML, CSV, TSV and base64 decoders and every byte string of length <= 2 (thorough 3) through the CBOR decoder. A panic, abort or fatal signal is a violation; the supervisor resumes after the fatal case.",
+   "not a proof of panic freedom: exhaustive over the stated alphabets only; allocation failure/capacity overflow excluded as resource exhaustion; repetition counts and Bessel orders limited to |n| <= 64", "DESIGN.md §2 C05"),
 }
 PENDING = {}
 def main():
